@@ -194,8 +194,7 @@ func (c *conn) run(query string, args []Value) (*resultSet, *execResult, []Write
 	if strings.Contains(up, "INFORMATION_SCHEMA") {
 		return c.infoSchema(up, args)
 	}
-	p := aparser.New()
-	stmts, _, err := p.Parse(q, "", "")
+	stmts, err := parseSQL(q)
 	if err != nil {
 		return nil, nil, nil, myErr(1064, "You have an error in your SQL syntax; %v", err)
 	}
@@ -1456,4 +1455,16 @@ func (c *conn) execDelete(x *ast.DeleteStmt, args []Value) (*resultSet, *execRes
 		return nil, nil, nil, err
 	}
 	return nil, res, writes, nil
+}
+
+// parseSQL parses with the embedded parser; a parser panic (its test driver gives up on some
+// decimal literals) is reported as a syntax error.
+func parseSQL(q string) (stmts []ast.StmtNode, err error) {
+	defer func() {
+		if r := recover(); r != nil {
+			err = fmt.Errorf("parser panic: %v", r)
+		}
+	}()
+	stmts, _, err = aparser.New().Parse(q, "", "")
+	return
 }
